@@ -16,7 +16,11 @@ def visit_term(name, item, args):
         if len(args) < 4:
             return None
         # the functor of async_union_and_execute carries (orig_a, orig_b, user args...) after the four walk arguments
-        return 'Walk %s (%d) (%d) (%d) (%d) (%d)' % ('true' if 'async_union_and_execute' in name else 'false', item, args[0], args[1], args[2], args[3])
+        if 'async_union_and_execute' in name:
+            if len(args) < 6:
+                return None
+            return 'Walk (Some (%d, %d)) (%d) (%d) (%d) (%d) (%d)' % (args[4], args[5], item, args[0], args[1], args[2], args[3])
+        return 'Walk None (%d) (%d) (%d) (%d) (%d)' % (item, args[0], args[1], args[2], args[3])
     if len(args) == 2:
         return 'Resolve (%d) (%d) (%d)' % (item, args[0], args[1])
     if len(args) == 1:
@@ -54,11 +58,11 @@ def parse(lines, n):
 COQ = '''From Coq Require Import ZArith List Bool. Import ListNotations.
 From Ygm Require Import DisjointSet DisjointLocal.
 Local Open Scope Z_scope.
-Definition cases : list (list (bool * (Z * Z)) * list rec) := [
+Definition cases : list (list (bool * (Z * Z)) * list rec * list (Z * Z)) := [
 %s
 ].
-Definition results := map (fun c => epoch_ok (fst c) (snd c)) cases.
-Definition bad := filter (fun '(i, r) => match r with (None, true) => false | _ => true end) (combine (seq 0 (length cases)) results).
+Definition results := map (fun c => epoch_ok (fst (fst c)) (snd (fst c)) (snd c)) cases.
+Definition bad := filter (fun '(i, r) => match r with (None, true, true) => false | _ => true end) (combine (seq 0 (length cases)) results).
 Eval vm_compute in (length cases, bad).
 '''
 
@@ -80,6 +84,12 @@ def check(gs, runs, tag):
                 for tok in m.group(3).split():
                     it, rr, pp, ow = map(int, tok.split(','))
                     dump[(int(m.group(1)), it)] = (rr, pp)
+        # the merge callbacks the container reported, per epoch
+        cbs = {}
+        for l in r['lines']:
+            m = re.match(r'CB (\d+) (\d+) :(.*)', l)
+            if m:
+                cbs.setdefault(int(m.group(1)), []).extend(tuple(map(int, t.split(','))) for t in m.group(3).split())
         for e in range(1, g['epochs'] + 1):
             rs = recs.get(e, [])
             issued = [(cb, a, b) for (ep, rk, a, b, cb) in g['edges'] if ep == e]
@@ -95,8 +105,10 @@ def check(gs, runs, tag):
             if not rs and not issued:
                 continue
             nvis += len(rs)
-            cases.append('([%s],\n  [%s])' % ('; '.join('(%s, (%d, %d))' % ('true' if cb else 'false', a, b) for (cb, a, b) in issued),
-                                              ';\n   '.join('(%d, %d, %s, %d, %d)' % (pre[0], pre[1], term, post[0], post[1]) for (_, _, pre, term, post) in rs)))
+            kinds['callbacks_compared'] = kinds.get('callbacks_compared', 0) + len(cbs.get(e, []))
+            cases.append('([%s],\n  [%s],\n  [%s])' % ('; '.join('(%s, (%d, %d))' % ('true' if cb else 'false', a, b) for (cb, a, b) in issued),
+                                              ';\n   '.join('(%d, %d, %s, %d, %d)' % (pre[0], pre[1], term, post[0], post[1]) for (_, _, pre, term, post) in rs),
+                                              '; '.join('(%d, %d)' % ab for ab in cbs.get(e, []))))
             owner.append((g, r, e, rs))
     if not cases:
         return {'validated': 0, 'visits': 0, 'failures': fails, 'msg': None, 'kinds': kinds}
@@ -105,12 +117,14 @@ def check(gs, runs, tag):
     m = re.search(r'= \((\d+), (\[.*\])\) : nat \*', flat)
     if rc != 0 or not m:
         return {'validated': 0, 'visits': nvis, 'failures': fails, 'msg': 'DisjointLocal.v could not be evaluated on the recorded visits: ' + out[-800:], 'kinds': kinds}
-    bad = re.findall(r'\((\d+), \((None|Some (\d+)), (true|false)\)\)', m.group(2))
-    for ci, fb, fbi, ms in bad[:5]:
+    bad = re.findall(r'\((\d+), \((None|Some (\d+)), (true|false), (true|false)\)\)', m.group(2))
+    for ci, fb, fbi, ms, cbok in bad[:5]:
         g, r, e, rs = owner[int(ci)]
         if fb != 'None':
             rk, item, pre, term, post = rs[int(fbi)]
             what = 'epoch %d, rank %d: visit %s found item %d at (rank, parent) = %s and left it at %s; DisjointLocal.lexec gives a different entry' % (e, rk, term, item, pre, post)
+        elif ms == 'true':
+            what = 'epoch %d: the merge callbacks reported by the container are not the ones DisjointLocal.lcb fires on the recorded visits' % e
         else:
             what = 'epoch %d: the visits executed are not the unions issued plus the visits DisjointLocal.lexec says were sent (a visit was sent with other arguments, lost, duplicated or invented)' % e
         fails.append({'what': what, 'cmd': r.get('cmd'), 'edges': [x for x in g['edges'] if x[0] == e][:12]})
